@@ -244,7 +244,6 @@ func rulePlumbing(c *Ctx, rule string) {
 	}
 	// 3. searchFind and searchReplace call findMatches with the same argument shape
 	fm := c.Fn("engine", "findMatches")
-	var shapes []string
 	for _, name := range []string{"searchFind", "searchReplace"} {
 		fn := c.Fn("engine", name)
 		ob := r.Ob(rule, name+": findMatches receives Body, All, Skip, Take, Last in parameter order", "")
@@ -253,30 +252,98 @@ func rulePlumbing(c *Ctx, rule string) {
 			continue
 		}
 		ob.Pos = c.pos(fn.Pos())
-		shape := ""
+		// every argument that is a field of the command must arrive in the parameter of the same name; a struct that bundles the four
+		// values must be filled field by field from the like-named command fields
+		var call *ssa.Call
 		instrsOf(fn, func(in ssa.Instruction) {
-			if call, ok := in.(*ssa.Call); ok && call.Call.StaticCallee() == fm {
-				var as []string
-				for _, a := range call.Call.Args {
-					s := exprStr(a)
-					if i := strings.LastIndex(s, "."); i >= 0 {
-						s = s[i+1:]
-					}
-					as = append(as, s)
-				}
-				shape = strings.Join(as, ", ")
+			if cl, ok := in.(*ssa.Call); ok && cl.Call.StaticCallee() == fm {
+				call = cl
 			}
 		})
-		shapes = append(shapes, shape)
-		var pn []string
-		for _, p := range fm.Params {
-			pn = append(pn, p.Name())
+		if call == nil {
+			ob.Und("no call to findMatches")
+			continue
 		}
-		want := "Body, All, Skip, Take, Last, filename, reader"
-		if shape == want {
-			ob.OKnt("findMatches(" + shape + ") for parameters (" + strings.Join(pn, ", ") + ")")
-		} else {
-			ob.Bad("findMatches is called with (" + shape + "), expected (" + want + ")")
+		cmdField := func(v ssa.Value) string {
+			if u, ok := v.(*ssa.UnOp); ok && u.Op == token.MUL {
+				if fa, ok := u.X.(*ssa.FieldAddr); ok {
+					return fieldName(deref(fa.X.Type()), fa.Field)
+				}
+			}
+			if f, ok := v.(*ssa.Field); ok {
+				return fieldName(f.X.Type(), f.Field)
+			}
+			return ""
+		}
+		window := map[string]bool{"all": true, "skip": true, "take": true, "last": true}
+		var bad, und, okd []string
+		seen := map[string]bool{}
+		for i, a := range call.Call.Args {
+			if i >= len(fm.Params) {
+				break
+			}
+			pname := strings.ToLower(fm.Params[i].Name())
+			if f := cmdField(a); f != "" {
+				lf := strings.ToLower(f)
+				if window[lf] || window[pname] {
+					seen[lf] = true
+					if lf == pname {
+						okd = append(okd, f+"->"+fm.Params[i].Name())
+					} else {
+						bad = append(bad, fmt.Sprintf("the command's %s arrives in parameter %s", f, fm.Params[i].Name()))
+					}
+				}
+				continue
+			}
+			// a struct built here: its fields, by name
+			var lit *ssa.Alloc
+			if u, ok := a.(*ssa.UnOp); ok && u.Op == token.MUL {
+				lit, _ = u.X.(*ssa.Alloc)
+			}
+			if lit != nil {
+				for _, ref := range *lit.Referrers() {
+					fa, ok := ref.(*ssa.FieldAddr)
+					if !ok {
+						continue
+					}
+					dst := strings.ToLower(fieldName(deref(fa.X.Type()), fa.Field))
+					for _, r2 := range *fa.Referrers() {
+						if st, ok := r2.(*ssa.Store); ok && st.Addr == ssa.Value(fa) {
+							src := strings.ToLower(cmdField(st.Val))
+							if !window[dst] && !window[src] {
+								continue
+							}
+							seen[src] = true
+							if src == dst {
+								okd = append(okd, src+"->"+fm.Params[i].Name()+"."+dst)
+							} else if src == "" {
+								und = append(und, "field "+dst+" is not filled from a field of the command")
+							} else {
+								bad = append(bad, fmt.Sprintf("the command's %s is stored into field %s of the window handed to findMatches", src, dst))
+							}
+						}
+					}
+				}
+				continue
+			}
+			if window[pname] {
+				und = append(und, "parameter "+fm.Params[i].Name()+" receives "+exprStr(a))
+			}
+		}
+		for w := range window {
+			if !seen[w] {
+				und = append(und, "the command's "+w+" was not found among the arguments")
+			}
+		}
+		sort.Strings(und)
+		switch {
+		case len(bad) > 0:
+			ob.Bad("window values change their role between the command and findMatches: " + strings.Join(bad, "; "))
+		case len(und) > 0:
+			ob.Und(strings.Join(uniq(und), "; "))
+		default:
+			sort.Strings(okd)
+			ob.OKnt("findMatches receives " + strings.Join(okd, ", "))
 		}
 	}
 }
